@@ -53,6 +53,13 @@ func TestC01Goroutines(t *testing.T) {
 				return 100 + c, fmt.Sprint("c", c)
 			})
 		}
+		// receivers live on the heap: a stub entered through reflect.MakeFunc keeps pointer arguments that point into the
+		// caller's frame in heap-allocated reflect.Values, which is the open finding C04/pointer-into-caller-stack (at
+		// 60 000 calls per goroutine a collection meets one and the process dies); this test is about concurrent callers
+		desks := make([]*Desk, G)
+		for g := range desks {
+			desks[g] = &Desk{id: g}
+		}
 		bar := vmon.NewSpinBarrier(G)
 		var wg sync.WaitGroup
 		bad := make([]string, G)
@@ -65,7 +72,7 @@ func TestC01Goroutines(t *testing.T) {
 						bad[g] = fmt.Sprintf("caller %d: panic %v", g, r)
 					}
 				}()
-				d := &Desk{id: g}
+				d := desks[g]
 				bar.Wait()
 				for i := 0; i < per; i++ {
 					if form == "conditional stub on a method" {
